@@ -26,6 +26,9 @@ STRENGTHENED = {
     "C13d": "new deformation-gradient families `inf` (R.V.diag(1+10^u d).V^T, u in [-10,-2]) and `tinyshear`, simple shear down to 1e-9; tolerances are now the measured conditioning of the decomposition (1e-12 S0 for the stretch, 1e-13/separation for the axis, calibrated on 200000 random gradients) instead of a flat 1e-9 with small strains skipped",
     "C15d": "new oracle `generated_shapes`: shape pairs come from a grammar (ranks 0..5 / 0..3, dimensions biased towards 3 so that snapshot and grain counts collide with the trailing 3x3, fractions optionally tied to the leading dimensions of the orientations) with the consistency rule as oracle in both directions (consistent accepted with the right output shapes, everything else ValueError)",
     "C17d": "new fault `snapshot_size`: any snapshot index (first or later) x fractions / orientations / both / orientations without the grain axis x sizes 1 (broadcastable), n-1, n+1, 2n, 0 - this also exposed a genuine defect in `Mineral.save` (fix: 9de32db)",
+    "C01e": "one mineral in six now starts from a texture written as 0/+-1 direction-cosine matrices and handed over as an integer-typed array (`hist.mineral_spec`, layout `int`); steady velocity gradients with integral entries are likewise handed over with integer dtype",
+    "C07e": "the exhaustive ordinal grid now runs over phase ordinals -2..3 and fabric ordinals -7..7 (negative ordinals wrap around as array indices), and the history-level `bad_fabric` failure draws from mismatched, negative and too-large ordinals",
+    "C08e": "minerals now also reach the update restored from an NPZ checkpoint (before the first or after the first update; enumeration fields come back as numpy integers) or with plain-integer phase/fabric/regime ordinals, and the restored run must equal the in-memory run",
     "C20": "new differential part of `point_density`: raw estimates are rebuilt from the documented counting grid with pydrex's kernel functions, normalised, clipped and compared (1e-9)",
 }
 
